@@ -218,4 +218,42 @@ def rule_d(ctx: Ctx) -> None:
                 'unmap_qname(name, xsd_element.attributes) (reaching definitions; sibling agreement across the converters).')
 
 
-RULES = [rule_a, rule_b, rule_c, rule_d]
+def rule_e(ctx: Ctx) -> None:
+    """A type predicate that XsdType answers with a constant False but simple types override (is_list, is_union, …) and that is asked
+    on a receiver which may be a complex type must be overridden by XsdComplexType and delegate to its simple content."""
+    rule = 'C05.e'
+    idx = ctx.idx
+    xt = idx.cls('xmlschema.validators.xsdbase.XsdType')
+    ct = idx.cls('xmlschema.validators.complex_types.XsdComplexType')
+    st = idx.cls('xmlschema.validators.simple_types.XsdSimpleType')
+    const = {}
+    for name, f in xt.methods.items():
+        rets = [text(r.value) for r in ast.walk(f.node) if isinstance(r, ast.Return)]
+        if rets == ['False'] and any(name in k.methods for k in idx.subclasses(st)):
+            const[name] = f
+    ctx.floor(rule, 'constant-False predicates of XsdType that simple types override', len(const), 3)
+    n = 0
+    for f in idx.functions.values():
+        if f.module.name.startswith('xmlschema.testing') or isinstance(f.node, ast.Lambda):
+            continue
+        if not any(f'.{p}(' in f.module.segment(f.node) for p in const):
+            continue
+        for c in walk_no_nested(f.node):
+            if isinstance(c, ast.Call) and isinstance(c.func, ast.Attribute) and c.func.attr in const:
+                cls = ctx.typed.classes_of(f, c.func.value)
+                if not any(k in idx.classes and ct in idx.classes[k].mro() for k in cls):
+                    continue
+                n += 1
+                m = ct.find_method(c.func.attr)
+                ok = m is not const[c.func.attr] and m is not None and 'self.content' in text(m.node)
+                ctx.ob(rule, f'{f.qualname.split(".", 1)[-1]}: `{text(c)[:40]}` on a possibly complex type is answered from its simple content', f.loc(c), ok,
+                       '' if ok else f'XsdComplexType inherits XsdType.{c.func.attr} (constant False): a complex type with simple content of that '
+                       f'variety is treated as if it were not, e.g. a list value is re-encoded as repeated elements',
+                       key=f'{f.qualname}|predicate|{c.func.attr}')
+    ctx.floor(rule, 'predicate calls on possibly complex receivers', n, 5)
+    ctx.trusted.append('mypy type map (L1) for the receiver classes of the predicate calls')
+    ctx.explain('C05.e: typed call sites of constant-False type predicates on receivers that may be XsdComplexType; the complex type '
+                'must override the predicate and consult its simple content.')
+
+
+RULES = [rule_a, rule_b, rule_c, rule_d, rule_e]
